@@ -23,7 +23,8 @@ unsafe impl Sync for Shim {}
 
 static SHIM: OnceLock<Option<Shim>> = OnceLock::new();
 
-pub const KINDS: [&str; 5] = ["real clock", "environment variable", "real file system", "working directory", "process id"];
+pub const NK: usize = 7;
+pub const KINDS: [&str; NK] = ["real clock", "environment variable", "real file system", "working directory", "process id", "standard streams", "file lock"];
 
 pub fn init() {
     let _ = SHIM.set(unsafe {
@@ -43,10 +44,10 @@ pub fn present() -> bool {
     matches!(SHIM.get(), Some(Some(_)))
 }
 
-pub fn snapshot() -> [u64; 5] {
+pub fn snapshot() -> [u64; NK] {
     match SHIM.get() {
         Some(Some(s)) => {
-            let mut out = [0u64; 5];
+            let mut out = [0u64; NK];
             // SAFETY: the shim returns a pointer to an array of at least 8 words in the calling thread's TLS
             let p = unsafe { (s.counts)() };
             for (i, o) in out.iter_mut().enumerate() {
@@ -54,14 +55,14 @@ pub fn snapshot() -> [u64; 5] {
             }
             out
         }
-        _ => [0; 5],
+        _ => [0; NK],
     }
 }
 
 /// First kind of request made since `before`: (kind index, how many, last path / variable name seen).
-pub fn delta(before: &[u64; 5]) -> Option<(usize, u64, String)> {
+pub fn delta(before: &[u64; NK]) -> Option<(usize, u64, String)> {
     let now = snapshot();
-    for i in 0..5 {
+    for i in 0..NK {
         if now[i] != before[i] {
             // only environment and file-system requests carry a name
             let what = match (i, SHIM.get()) {
